@@ -427,7 +427,15 @@ class C14(Scenario):
                 inexact = any(k in repr(frozen[1]) for k in ("'sum'", "'average'", "'deviate'"))
                 scale = max([1.0] + [abs(float(v)) for kind, vals in cols.values() if kind in ("float", "int") or kind.startswith("int:") for v in vals
                                      if v != "nan" and abs(float(v)) != float("inf")])
-                self._cmp(whole_docs, self._docs(red), "partition-invariance", si, observe.Tol(n=16 * n, scale=scale, sums=True) if inexact else None)
+                red_docs = self._docs(red)
+                # an infinite value in the batch switches a Bin of Counts from np.histogram to the generic path (12.7, non-dyadic
+                # edges): a chunk without the infinity and the whole frame then disagree about a value that sits on a computed edge
+                edgy = [nm for nm in whole_docs if any(abs(float(v)) == float("inf") for c_ in nm.split(":") if cols.get(c_, ("", []))[0] == "float"
+                                                        for v in cols[c_][1] if v != "nan") and self._near_edge(nm, frozen[1], frozen[3], df)]
+                if edgy:
+                    w.bump("probe_near_edge_skip_partition")
+                self._cmp({k_: v for k_, v in whole_docs.items() if k_ not in edgy}, {k_: v for k_, v in red_docs.items() if k_ not in edgy},
+                          "partition-invariance", si, observe.Tol(n=16 * n, scale=scale, sums=True) if inexact else None)
             w.record_step(st)
         R["nontrivial"] = nchunks >= 2 and any(":" in f for f in feats) and n >= 8
         R["units"] = nchunks
